@@ -18,9 +18,9 @@ META = {
             "entries (thorough), <= 9 items in 3 entries by seeded simulation; 3-4 time points + 'future'; 2 float values; one int, one "
             "float and one invalid histogram; exemplar identity = timestamp. Out-of-order ingestion disabled (default), no out-of-bounds "
             "(compaction) state, start timestamps / ST-zero ingestion, type-and-unit labels, metadata WAL records and custom-bucket "
-            "histograms not explored; metadata only through the codec round trip. Known findings KF-C41-1 (H8: accepted by Append, dropped "
-            "by Commit, still counted and 204), KF-C41-2 (1.0: invalid labels skipped with 204), KF-C41-3 (1.0: exemplars appended before "
-            "histograms).",
+            "histograms not explored; metadata only through the codec round trip. Open known findings KF-C41-1 (H8: accepted by Append, dropped "
+            "by Commit, still counted and 204) and KF-C41-2 (1.0: invalid labels skipped with 204); KF-C41-3 (1.0: exemplars appended before "
+            "histograms) is repaired by commit a04f81df02 and now checked.",
     "technique": "TLA+ reference + transcription (WriteHandler.tla) model-checked by TLC; TLC-generated requests replayed through "
                  "remote.NewWriteHandler over a real TSDB head",
     "design_ref": "DESIGN.md §5 C41, §7 H8",
@@ -54,7 +54,8 @@ def run(ctx):
         return cases[0]
     ctx.samples = [pick(lambda c: c["proto"] == "v2" and not c["kf"] and c["ref"]["code"] == 400 and c["ref"]["stored"]["a"]),
                    pick(lambda c: c["proto"] == "v1" and not c["kf"] and c["ref"]["stored"]["b"]),
-                   pick(lambda c: "KF_C41_1" in c["kf"]), pick(lambda c: "KF_C41_2" in c["kf"]), pick(lambda c: "KF_C41_3" in c["kf"]),
+                   pick(lambda c: "KF_C41_1" in c["kf"]), pick(lambda c: "KF_C41_2" in c["kf"]),
+                   pick(lambda c: c["proto"] == "v1" and any(e["lab"] == "b" and e["hs"] and e["ex"] for e in c["req"])),
                    cases[-1]]
     inp = ctx.write_ndjson("requests.ndjson", cases)
     gr = ctx.go_test("storage/remote", ["c41_write_test.go"], "^TestVerifC41$", env={"VERIF_IN": inp}, timeout="40m")
